@@ -13,7 +13,21 @@ rsync -a --exclude .git /repo/ "$S"/
 cp "$M"/patch.diff "$OUT"/patch.diff
 for f in "$M"/demo_test.go "$M"/demo "$M"/*.go; do [ -e "$f" ] && cp -r "$f" "$OUT"/ 2>/dev/null; done
 [ -f "$M"/meta.json ] && cp "$M"/meta.json "$OUT"/meta.agent.json
+# demonstration: must pass on the unchanged copy and fail with the change (meta.json: demo_dir, demo_cmd)
+DD=$(python3 -c "import json,sys; m=json.load(open('$M/meta.json')); print(m.get('demo_dir','') or '')" 2>/dev/null)
+DC=$(python3 -c "import json,sys; m=json.load(open('$M/meta.json')); print(m.get('demo_cmd','') or '')" 2>/dev/null)
+demo_run() { (cd "$S" && timeout 600 sh -c "$DC") > "$OUT"/demo_$1.txt 2>&1; echo $?; }
+if [ -n "$DC" ] && [ -n "$DD" ]; then
+  if [ -d "$M"/demo ]; then cp -r "$M"/demo "$S"/"$DD"/; else cp "$M"/demo_test.go "$S"/"$DD"/zz_demo_test.go; fi
+  rc0=$(demo_run without_change)
+else rc0=skip; fi
 if ! (cd "$S" && git apply --unsafe-paths --directory="$S" "$OUT"/patch.diff 2>/dev/null || patch -d "$S" -p1 -s < "$OUT"/patch.diff); then echo "PATCH-FAILED"; rm -rf "$S"; exit 2; fi
+if [ "$rc0" != skip ]; then
+  rc1=$(demo_run with_change)
+  if [ -d "$M"/demo ]; then rm -rf "$S"/"$DD"/demo; else rm -f "$S"/"$DD"/zz_demo_test.go; fi
+  echo "DEMO without_change exit=$rc0 with_change exit=$rc1" | tee "$OUT"/demo_result.txt
+  if [ "$rc0" != 0 ] || [ "$rc1" = 0 ]; then echo "DEMO-NOT-CONFIRMED"; fi
+else echo "DEMO skipped (no demo_dir/demo_cmd in meta.json)" | tee "$OUT"/demo_result.txt; fi
 (cd "$S" && go build ./... && go test -vet=off -count=1 ./... 2>&1 | grep -v "no test files" | tail -8) > "$OUT"/baseline_with_change.txt 2>&1
 if grep -q "^FAIL\|^---\|cannot\|undefined" "$OUT"/baseline_with_change.txt; then echo "BASELINE-FAILS-WITH-CHANGE"; cat "$OUT"/baseline_with_change.txt; fi
 : > "$OUT"/check_results.txt
